@@ -11,6 +11,7 @@ Direct oracle (independent of Coq): the restarted run must not raise and must re
 (samples, state) bit-identical to the uninterrupted run, for every crash point."""
 import json
 import os
+import re
 import shutil
 import subprocess
 from concurrent.futures import ThreadPoolExecutor
@@ -23,6 +24,20 @@ NAMES = {"last.pkl": "Last", "last.pkl.tmp": "Tmp", "minisanity.txt": "Log"}
 KINDS = {"open-w": "TOpenW", "open-a": "TOpenA", "open-r": "TOpenR", "write": "TWrite", "close": "TClose"}
 HEADER = "From Coq Require Import List Arith Bool. Import ListNotations.\nRequire Import NV.C24.Model.\n"
 WORKERS = 8
+
+
+def work_root(ctx):
+    """Per-process scratch directory (concurrent checks of the same property must not collide)."""
+    return os.path.join(ctx.run_dir(), "w%d" % os.getpid())
+
+
+def clean_old_work(ctx):
+    """Remove scratch directories of processes that no longer exist."""
+    rd = ctx.run_dir()
+    for f in os.listdir(rd):
+        m = re.fullmatch(r"w(\d+)", f)
+        if (m and not os.path.exists("/proc/%s" % m.group(1))) or f == "work":
+            shutil.rmtree(os.path.join(rd, f), ignore_errors=True)
 
 
 # ---- running the driver ---------------------------------------------------------------------
@@ -297,7 +312,7 @@ class C24(C.Check):
 
     # -- helpers -----------------------------------------------------------------------------
     def wd(self, ctx, name):
-        return os.path.join(ctx.run_dir(), "work", name)
+        return os.path.join(work_root(ctx), name)
 
     def reference(self, ctx, ci, cfg, twice=True):
         with ThreadPoolExecutor(2) as ex:
@@ -326,7 +341,8 @@ class C24(C.Check):
     # -- correspondence ----------------------------------------------------------------------
     def correspondence(self, ctx, res):
         self.obs, self.refs = [], []
-        shutil.rmtree(os.path.join(ctx.run_dir(), "work"), ignore_errors=True)
+        clean_old_work(ctx)
+        shutil.rmtree(work_root(ctx), ignore_errors=True)
         cc = os.path.join(ctx.run_dir(), "jaxcache")
         if os.path.isdir(cc) and len(os.listdir(cc)) > 3000:
             shutil.rmtree(cc, ignore_errors=True)
@@ -434,6 +450,7 @@ class C24(C.Check):
                     res.add_failing(signature(f[0], reps), f[1], {"case": cfg, "cps": [list(c) for c in cps], "r0": r0})
                     break
         res.coverage["impl_property_evaluations"] = n
+        shutil.rmtree(work_root(ctx), ignore_errors=True)
 
     def replay(self, ctx, rp):
         i = rp["input"]
@@ -443,6 +460,7 @@ class C24(C.Check):
         f = direct_failure(ref, reps)
         if f:
             print("  " + f[1])
+        shutil.rmtree(work_root(ctx), ignore_errors=True)
         return f is not None
 
 
